@@ -115,6 +115,7 @@ class C20(Property):
                        "probe.file-value-loss", "probe.file-binary-tail",
                        "probe.file-not-encodable", "probe.second-invocation",
                        "probe.translate-refused", "probe.file-too-deep",
+                       "probe.file-with-deeply-nested-blocks",
                        "probe.file-with-byte-order-mark",
                        "probe.validate-with-injected-fault"]
 
@@ -127,6 +128,8 @@ class C20(Property):
                                "damaged", "not-encodable", "binary-tail"])
             if rng.random() < 0.04:
                 kind = "deep"
+            elif rng.random() < 0.04:
+                kind = "nested-blocks"
             elif rng.random() < 0.05:
                 kind = "bom"
             stmts, toks, text, style = gen.render_doc(
@@ -179,6 +182,16 @@ class C20(Property):
                 data = ("DEEP = " + "(" * d + "1" + ")" * d +
                         "\nEND\n").encode()
                 out.inc("probe.file-too-deep")
+            elif kind == "nested-blocks":
+                # legal, and deeper than labels usually are, but well
+                # within what every parser and encoder here can follow
+                d = rng.choice([150, 180])
+                kw = rng.choice(["OBJECT", "GROUP"])
+                data = ("".join("%s = n%d\n" % (kw, j) for j in range(d)) +
+                        "X = 1\n" + "".join(
+                            "END_%s = n%d\n" % (kw, j)
+                            for j in reversed(range(d))) + "END\n").encode()
+                out.inc("probe.file-with-deeply-nested-blocks")
             elif kind == "binary-tail":
                 if "END" not in [t.kind for t in toks]:
                     data = data + b"END\n"
